@@ -191,7 +191,7 @@ import math  # noqa: E402
 class Info:
     """Everything observable about what the library did after one attempt."""
 
-    def __init__(self, cfg, cf, idx):
+    def __init__(self, cfg, cf, idx, grants=None):
         a = cf.attempts[idx]
         self.a = a
         self.k = a.k
@@ -235,6 +235,13 @@ class Info:
         holds = set(self.S)
         if self.refused:
             holds.add("BUDGET_EXHAUSTED")
+        elif has_budget and grants is not None and a.end is not None:
+            # the condition itself, not the way the library learnt of it: the window is full when this attempt ended
+            b = cfg["budget"]
+            # (a grant aged exactly window_s sits on a float-rounding boundary off the dyadic grid: counted as live here)
+            live = sum(c for (sq, t, c) in grants if sq < a.end["seq"] and a.end["t"] - t <= b["window_us"])
+            if live + 1 > b["max"]:
+                holds.add("BUDGET_EXHAUSTED")
         if self.first_true is not None or self.decision == "A" or a.kind == "abort":
             holds.add("ABORTED")
         if self.decision == "D":
@@ -269,9 +276,10 @@ def analyze(scn, trace):
     """-> {cid: (CallFacts, [Info...])}"""
     out = {}
     calls = split_calls(trace)
+    grants = [(e["seq"], e["t"], e["cost"]) for e in trace if e["ev"] == "BUDGET" and e["granted"]]
     for cid in sorted(calls):
         cf = calls[cid]
-        infos = [Info(scn["cfg"], cf, i) for i in range(len(cf.attempts))] if cf.begin is not None else []
+        infos = [Info(scn["cfg"], cf, i, grants) for i in range(len(cf.attempts))] if cf.begin is not None else []
         out[cid] = (cf, infos)
     return out
 
